@@ -6,6 +6,7 @@
 //     message the caller handed in (caller-owned, which the code may filter in place);
 //   - monitor "snapshot-core": the same sequences under the snapshot monitor (deep copy at crossing,
 //     re-compare after every later op), plus read-only ops must leave the stored state unchanged;
+//   - tie "core-events" + monitor "snapshot-core-events" (events.go): event OBJECTS shared between subscribers;
 //   - monitor "snapshot-models": every trait model in the table driven reflectively under the
 //     snapshot monitor;
 //   - -facts: K3 tables (model constructors in the tree vs the table driven here; syntactic purity of
@@ -34,8 +35,10 @@ func main() {
 	res := lib.NewResult("C07", f)
 	runCore(f, res)
 	runNested(f, res)
+	runEvents(f, res)
 	runRim(f, res)
 	runRim2(f, res)
+	runRim3(f, res)
 	runModels(f, res)
 	if err := res.Write(f.Out); err != nil {
 		lib.Fatal(err)
@@ -76,6 +79,23 @@ func replay(f lib.Flags) int {
 		}
 		runNestedSeq(ns, m)
 		fmt.Printf("replay core-nested seq=%d seed=%d steps=%d\n", ns.Seq, ns.Seed, ns.Steps)
+	case "mode":
+		var c modeCase
+		if err := json.Unmarshal(b, &c); err != nil {
+			lib.Fatal(err)
+		}
+		ans, changed := runModeCase(c)
+		if changed || len(ans) > 6 && ans[:6] == "panic:" {
+			m.Violate("C07/modepb/UpdateModeValues/writes-old-values", "UpdateModeValues changed the live old ModeValues message (or panicked)", c, c.Stored, ans)
+		}
+		fmt.Printf("replay mode %v -> %s\n", c, ans)
+	case "events":
+		var es evSeq
+		if err := json.Unmarshal(b, &es); err != nil {
+			lib.Fatal(err)
+		}
+		runEventSeq(es, nil, m, nil)
+		fmt.Printf("replay core-events seq=%d seed=%d steps=%d\n", es.Seq, es.Seed, es.Steps)
 	case "merge":
 		var c mergeCase
 		if err := json.Unmarshal(b, &c); err != nil {
